@@ -17,7 +17,7 @@ def opf(op, a, b):
     if op == 'mul':
         return a * b
     if op == 'div':
-        return a / b
+        return A.fn('idiv', a, b)      # S: BaseNum may be an integer type: x / s is not x * (1/s)
     if op == 'rem':
         return A.fn('rem', a, b)
     raise KeyError(op)
@@ -106,6 +106,7 @@ def check_specs(run, S, h):
 
 
 def run(tier):
+    core.DEFAULT_FIELD_DIV = False
     run = Run(PROP, tier, 'proof')
     spec_selfcheck()
     h = build()
